@@ -98,7 +98,7 @@ class ExprMixin:
         if modname in self.prog.classes:
             c = self.prog.classes[modname]
             if nm in c.attrs:
-                return self.prog.fold(c.attrs[nm], c.module, c)
+                return self.prog.fold(c.attrs[nm], c.module, c, None, 0, True)
         raise NotConst()
 
     def ev_name(self, n, st, fx):
@@ -144,7 +144,7 @@ class ExprMixin:
         txt = ast.unparse(expr)
         if name == "callLater" or txt.endswith(".callLater"):
             return ("calllater",)
-        ok, v = self.prog.try_fold(expr, owner.module, owner)
+        ok, v = self.prog.try_fold(expr, owner.module, owner, class_body=True)
         if ok:
             if isinstance(v, (dict, list)):
                 return ("constobj", owner.qual + "." + name)
